@@ -998,7 +998,10 @@ impl Scenario for SinkFaults {
             }
             if let Some(p) = mp {
                 if r.violation.is_none() {
-                    r.harness_error = Some(format!("harness main panicked: {p}"));
+                    match crate::driver::classify_uncaught_panic(&p) {
+                        Ok(v) => r.violation = Some(v),
+                        Err(e) => r.harness_error = Some(e),
+                    }
                 }
             }
         }
@@ -1238,7 +1241,10 @@ impl Scenario for Pipeline {
             }
             if let Some(p) = mp {
                 if r.violation.is_none() {
-                    r.harness_error = Some(format!("harness main panicked: {p}"));
+                    match crate::driver::classify_uncaught_panic(&p) {
+                        Ok(v) => r.violation = Some(v),
+                        Err(e) => r.harness_error = Some(e),
+                    }
                 }
             }
         }
